@@ -230,11 +230,17 @@ def check(run, decls, text, feats_sig=None, history_rng=None):
         run.count("metas_checked")
     real, mine = reflection_schema()
     try:
-        data = bytes(serde.encode(real, "Fcp", rec))
+        raw = serde.encode(real, "Fcp", rec)
+        data = bytes(raw)
     except Exception as e:
         run.violation("the reflection record cannot be encoded with the reflection schema: %s: %s" % (type(e).__name__, e), case)
         return
     run.count("records_encoded")
+    # the reflection binaries of the schemas seen before are still held by their caller (several schema files
+    # encoded in one process before any of them is written out / decoded): they stay what they were
+    from . import codec_common as CC
+    if not CC.earlier_results_intact(run, raw, data, {"schema": text[:2000], "struct": "Fcp"}):
+        return
     rec32, lost = narrowed(rec)
     if lost:
         case["integers_wider_than_the_reflection_fields"] = lost[:6]
